@@ -45,41 +45,76 @@ def aroundMk (cs numChunks : Nat) (st : AroundSt) (it : It) : Resp → Att := fu
   { tag := 1, lo := st.before, hi := st.after, size := cs, bestLen := numChunks, base := it.best,
     tIdx := it.nTests, cand := aroundCand cs st it, resp := r }
 
-/-- one pass of `MinimizeSurroundingPairs.try_removing_chunks`; returns the iterator and whether
-any proposal of the pass was accepted -/
-def aroundLoop (o : Oracle) (clk : Clock) (stopAt : Option Nat) (cs numChunks : Nat) :
-    Nat → AroundSt → It → Bool → It × Bool
+/-! ### the generic pass loop
+
+Both `try_removing_chunks` methods have the same skeleton: `while guard: if deadline: return;
+<maybe build a candidate>; <try it>; <move on>` inside `try: ... except ValueError: pass`.
+`PassDef` holds the three strategy-specific pieces; `pLoop` is the skeleton. -/
+
+inductive PAct where
+  | fail                                   -- an `assert` failed
+  | skip                                   -- nothing is proposed in this iteration
+  | propose (c : Testcase) (mk : Resp → Att)
+
+structure PassDef (σ : Type) where
+  guard : σ → It → Bool                    -- the `while` condition
+  act : σ → It → PAct
+  next : σ → Option Resp → Option σ        -- `none`: a ValueError ended the loop
+
+/-- returns the iterator and whether any proposal of the pass was accepted -/
+def pLoop {σ : Type} (pd : PassDef σ) (o : Oracle) (clk : Clock) (stopAt : Option Nat) :
+    Nat → σ → It → Bool → It × Bool
   | 0, _, it, any => ({ it with outOfFuel := true }, any)
   | fuel + 1, st, it, any =>
-    let n := it.best.len
-    if !(st.chunkStart + cs < n) then (it, any) else
+    if !pd.guard st it then (it, any) else
     if deadlinePassed stopAt clk it then (it, any) else
-    match it.try o (aroundCand cs st it) (aroundMk cs numChunks st it) with
-    | (.accepted, it) =>
-      let summary := setDead (setDead st.summary st.before) st.after
-      let chunkStart := st.chunkStart - cs
-      -- try: before = summary.rindex("S", 0, keep)
-      match rindexS summary st.keep with
-      | some b =>
-        match indexS summary (st.keep + 1) with
-        | some a => aroundLoop o clk stopAt cs numChunks fuel
-            { summary := summary, chunkStart := chunkStart, before := b, keep := st.keep, after := a } it true
-        | none => (it, true)
-      | none =>
-        -- before = keep; keep = summary.index("S", keep + 1); chunk_start += cs
-        match indexS summary (st.keep + 1) with
-        | none => (it, true)
-        | some k =>
-          match indexS summary (k + 1) with
-          | some a => aroundLoop o clk stopAt cs numChunks fuel
-              { summary := summary, chunkStart := chunkStart + cs, before := st.keep, keep := k, after := a } it true
-          | none => (it, true)
-    | (_, it) =>
-      -- before = keep; keep = after; chunk_start += cs; after = summary.index("S", keep + 1)
-      match indexS st.summary (st.after + 1) with
-      | some a => aroundLoop o clk stopAt cs numChunks fuel
-          { st with chunkStart := st.chunkStart + cs, before := st.keep, keep := st.after, after := a } it any
+    match pd.act st it with
+    | .fail => ({ it with internalError := true }, any)
+    | .skip =>
+      match pd.next st none with
+      | some st' => pLoop pd o clk stopAt fuel st' it any
       | none => (it, any)
+    | .propose c mk =>
+      let r := it.try o c mk
+      let any' := any || (r.1 == .accepted)
+      match pd.next st (some r.1) with
+      | some st' => pLoop pd o clk stopAt fuel st' r.2 any'
+      | none => (r.2, any')
+
+/-- how `MinimizeSurroundingPairs.try_removing_chunks` moves on after a proposal -/
+def aroundNext (cs : Nat) (st : AroundSt) : Option Resp → Option AroundSt
+  | some .accepted =>
+    let summary := setDead (setDead st.summary st.before) st.after
+    let chunkStart := st.chunkStart - cs
+    -- try: before = summary.rindex("S", 0, keep)
+    match rindexS summary st.keep with
+    | some b =>
+      match indexS summary (st.keep + 1) with
+      | some a => some { summary := summary, chunkStart := chunkStart, before := b, keep := st.keep, after := a }
+      | none => none
+    | none =>
+      -- before = keep; keep = summary.index("S", keep + 1); chunk_start += cs
+      match indexS summary (st.keep + 1) with
+      | none => none
+      | some k =>
+        match indexS summary (k + 1) with
+        | some a => some { summary := summary, chunkStart := chunkStart + cs, before := st.keep, keep := k, after := a }
+        | none => none
+  | _ =>
+    -- before = keep; keep = after; chunk_start += cs; after = summary.index("S", keep + 1)
+    match indexS st.summary (st.after + 1) with
+    | some a => some { st with chunkStart := st.chunkStart + cs, before := st.keep, keep := st.after, after := a }
+    | none => none
+
+def aroundDef (cs numChunks : Nat) : PassDef AroundSt where
+  guard st it := st.chunkStart + cs < it.best.len
+  act st it := .propose (aroundCand cs st it) (aroundMk cs numChunks st it)
+  next := aroundNext cs
+
+/-- one pass of `MinimizeSurroundingPairs.try_removing_chunks` -/
+def aroundLoop (o : Oracle) (clk : Clock) (stopAt : Option Nat) (cs numChunks : Nat) :
+    Nat → AroundSt → It → Bool → It × Bool :=
+  pLoop (aroundDef cs numChunks) o clk stopAt
 
 def aroundPass (o : Oracle) (clk : Clock) (stopAt : Option Nat) (cs : Nat) (it : It) : It × Bool :=
   let numChunks := Util.divUp it.best.len cs
@@ -133,51 +168,48 @@ def balMk2 (cs numChunks : Nat) (st : BalSt) (it : It) (rhs : Nat) : Resp → At
   { tag := 1, lo := st.lhs, hi := rhs, size := cs, bestLen := numChunks, base := it.best,
     tIdx := it.nTests, cand := balCand2 cs st it rhs, resp := r }
 
+def balZero (b : Int × Int × Int) : Bool := b.1 == 0 && b.2.1 == 0 && b.2.2 == 0
+
+def balOf (curly square normal : List Int) (i : Nat) : Int × Int × Int :=
+  (curly.getD i 0, square.getD i 0, normal.getD i 0)
+
+def balRhs (curly square normal : List Int) (st : BalSt) : Nat × (Int × Int × Int) :=
+  findRhs st.summary curly square normal (st.summary.drop (st.lhs + 1)) st.lhs (balOf curly square normal st.lhs)
+
+def balAct (cs numChunks : Nat) (curly square normal : List Int) (st : BalSt) (it : It) : PAct :=
+  -- assert summary.count("S", 0, lhs) * chunk_size == chunk_start
+  if countS st.summary 0 st.lhs * cs != st.chunkStart then .fail else
+  if balZero (balOf curly square normal st.lhs) then
+    -- already balanced: try to remove it alone
+    .propose (balCand1 cs st it) (balMk1 cs numChunks st it)
+  else
+    let r := balRhs curly square normal st
+    if !balZero r.2 then .skip   -- no match: skip this chunk
+    else .propose (balCand2 cs st it r.1) (balMk2 cs numChunks st it r.1)
+
+def balShift (cs : Nat) (st : BalSt) : Option BalSt :=
+  match indexS st.summary (st.lhs + 1) with
+  | some l => some { st with chunkStart := st.chunkStart + cs, lhs := l }
+  | none => none
+
+def balNext (cs : Nat) (curly square normal : List Int) (st : BalSt) : Option Resp → Option BalSt
+  | some .accepted =>
+    let summary :=
+      if balZero (balOf curly square normal st.lhs) then setDead st.summary st.lhs
+      else setDead (setDead st.summary st.lhs) (balRhs curly square normal st).1
+    match indexS summary (st.lhs + 1) with
+    | some l => some { st with summary := summary, lhs := l }
+    | none => none
+  | _ => balShift cs st
+
+def balDef (cs numChunks : Nat) (curly square normal : List Int) : PassDef BalSt where
+  guard st it := st.chunkStart < it.best.len
+  act := balAct cs numChunks curly square normal
+  next := balNext cs curly square normal
+
 def balLoop (o : Oracle) (clk : Clock) (stopAt : Option Nat) (cs numChunks : Nat)
-    (curly square normal : List Int) : Nat → BalSt → It → Bool → It × Bool
-  | 0, _, it, any => ({ it with outOfFuel := true }, any)
-  | fuel + 1, st, it, any =>
-    let n := it.best.len
-    if !(st.chunkStart < n) then (it, any) else
-    if deadlinePassed stopAt clk it then (it, any) else
-    -- assert summary.count("S", 0, lhs) * chunk_size == chunk_start
-    if countS st.summary 0 st.lhs * cs != st.chunkStart then ({ it with internalError := true }, any) else
-    let bal : Int × Int × Int := (curly.getD st.lhs 0, square.getD st.lhs 0, normal.getD st.lhs 0)
-    if bal.1 == 0 && bal.2.1 == 0 && bal.2.2 == 0 then
-      -- already balanced: try to remove it alone
-      match it.try o (balCand1 cs st it) (balMk1 cs numChunks st it) with
-      | (.accepted, it) =>
-        let summary := setDead st.summary st.lhs
-        match indexS summary (st.lhs + 1) with
-        | some l => balLoop o clk stopAt cs numChunks curly square normal fuel { st with summary := summary, lhs := l } it true
-        | none => (it, true)
-      | (_, it) =>
-        match indexS st.summary (st.lhs + 1) with
-        | some l => balLoop o clk stopAt cs numChunks curly square normal fuel
-            { st with chunkStart := st.chunkStart + cs, lhs := l } it any
-        | none => (it, any)
-    else
-      let r := findRhs st.summary curly square normal (st.summary.drop (st.lhs + 1)) st.lhs bal
-      let rhs := r.1
-      let fin := r.2
-      if !(fin.1 == 0 && fin.2.1 == 0 && fin.2.2 == 0) then
-        -- no match: skip this chunk
-        match indexS st.summary (st.lhs + 1) with
-        | some l => balLoop o clk stopAt cs numChunks curly square normal fuel
-            { st with chunkStart := st.chunkStart + cs, lhs := l } it any
-        | none => (it, any)
-      else
-        match it.try o (balCand2 cs st it rhs) (balMk2 cs numChunks st it rhs) with
-        | (.accepted, it) =>
-          let summary := setDead (setDead st.summary st.lhs) rhs
-          match indexS summary (st.lhs + 1) with
-          | some l => balLoop o clk stopAt cs numChunks curly square normal fuel { st with summary := summary, lhs := l } it true
-          | none => (it, true)
-        | (_, it) =>
-          match indexS st.summary (st.lhs + 1) with
-          | some l => balLoop o clk stopAt cs numChunks curly square normal fuel
-              { st with chunkStart := st.chunkStart + cs, lhs := l } it any
-          | none => (it, any)
+    (curly square normal : List Int) : Nat → BalSt → It → Bool → It × Bool :=
+  pLoop (balDef cs numChunks curly square normal) o clk stopAt
 
 def balPass (o : Oracle) (clk : Clock) (stopAt : Option Nat) (cs : Nat) (it : It) : It × Bool :=
   let numChunks := Util.divUp it.best.len cs
